@@ -28,6 +28,8 @@ func (harness) Configs(tier string) []xplore.Config {
 		return configs08(tier)
 	case "C14":
 		return configs14(tier)
+	case "C12":
+		return configs12(tier)
 	}
 	panic("unknown property " + *prop)
 }
@@ -44,6 +46,8 @@ func (harness) Run(cfg xplore.Config, ch vrt.Chooser, trace bool) (xplore.Outcom
 		return run08(cfg, ch, trace)
 	case "C14":
 		return run14(cfg, ch, trace)
+	case "C12":
+		return run12(cfg, ch, trace)
 	}
 	panic("unknown property " + *prop)
 }
